@@ -6,7 +6,7 @@
 //   - `go CALL`                -> block with temporaries + simrt.Go(func(){...})
 //   - statements with <-ch / ch<- : simrt.Yield(simrt.CChan) before, simrt.Reacquire() after
 //   - select                   -> Yield before, Reacquire first in every clause
-//   - time.Sleep               -> simrt.Sleep
+//   - time.Sleep/Now/Since/Until -> simrt.Sleep/TimeNow/TimeSince/TimeUntil
 //
 // Anything it cannot handle safely makes it exit 2.
 package main
@@ -263,13 +263,14 @@ func (r *rewriter) walk() {
 			r.stmtList(v.Body)
 		case *ast.CommClause:
 			r.stmtList(v.Body)
-		case *ast.CallExpr:
-			if sel, ok := v.Fun.(*ast.SelectorExpr); ok && usesTime {
-				if id, ok := sel.X.(*ast.Ident); ok && id.Name == "time" && sel.Sel.Name == "Sleep" && id.Obj == nil {
-					r.add(r.off(sel.Pos()), r.off(sel.End()), "simrt.Sleep")
+		case *ast.SelectorExpr:
+			if id, ok := v.X.(*ast.Ident); ok && usesTime && id.Name == "time" && id.Obj == nil {
+				repl := map[string]string{"Sleep": "simrt.Sleep", "Now": "simrt.TimeNow", "Since": "simrt.TimeSince", "Until": "simrt.TimeUntil"}[v.Sel.Name]
+				if repl != "" {
+					r.add(r.off(v.Pos()), r.off(v.End()), repl)
 					r.used = true
 					sleepRewritten = true
-					r.stats["sleep"]++
+					r.stats["time."+v.Sel.Name]++
 				}
 			}
 		}
